@@ -18,7 +18,8 @@ from . import wire, msm, weights
 LEVEL_TEXT = ('Static non-interference analysis (backward dependence on reconstructed value terms + control dependence on MIR). Decides that '
               'neither the recovery seed nor the requested mode can influence the arguments of the verdict gate, the transcript, the batch weights or '
               'any rejection on the verdict path, apart from enumerated infeasible error edges. Does not decide that a wrong seed yields a different '
-              'mask (needs collision resistance of Blake2b).')
+              'mask (needs collision resistance of Blake2b).'
+              ' Also decides the byte layout of the nonce MAC key on every path (the whole seed is in the key).')
 ASSUMPTIONS = ['nonce() fails only for labels > 16 bytes or indices >= 2^32; labels are constants <= 5 bytes and indices are bounded by 64 rounds / 6 generators',
                'ExtendedMask::assign fails only on a length mismatch; the mask vector has extension-degree many elements by construction']
 RULE_TEXT = 'one obligation per sink (gate argument, transcript event, guard, accumulation site); non-trivial = the sink term was searched for seed / action atoms'
